@@ -53,6 +53,18 @@ impl Display for DaySelector {
     fn fmt(&self, f: &mut std::fmt::Formatter<'_>) -> std::fmt::Result {
         if !(self.year.is_empty() && self.monthday.is_empty() && self.week.is_empty()) {
             write_selector(f, &self.year)?;
+
+            // A lone year directly followed by a month or a date would be read back as the
+            // year of that first date only (`2020Jan 1,Feb 1`): keep it a range of years.
+            if let [year] = self.year.as_slice() {
+                if !self.monthday.is_empty()
+                    && year.range.start() == year.range.end()
+                    && year.step == 1
+                {
+                    write!(f, "-{}", year.range.end().deref())?;
+                }
+            }
+
             write_selector(f, &self.monthday)?;
 
             if !self.week.is_empty() {
